@@ -49,8 +49,9 @@ CLAIMED = {
             "counters, checked at every await (yield points) and stable under the declared rely",
             "Proof that in-flight processing tasks = limit - semaphore value - reserved slots at every await and after "
             "every done-callback, hence never more than tasks_limit; every spawn is dominated by one acquire; the "
-            "callback releases exactly once and never raises.",
-            "asyncio Semaphore/Event/Task by assumed contracts; cooperative scheduling (switch only at await); "
+            "callback releases exactly once and never raises; and that no actor invocation is still in progress when "
+            "_Processor.actor_run returns (ghost count of open invocations), which is what links processing tasks to invocations.",
+            "asyncio Semaphore/Event/Task and wait_for (cancels and awaits on timeout) by assumed contracts; cooperative scheduling (switch only at await); "
             "liveness clauses (resume, never stalls, eventually executed) are not decided."),
     "C10": ("deductive verification of max_tasks_hit, _task_callback, _run_consumer loop invariant started <= max_tasks, "
             "run_one_queue (stop event cancels consumption)",
@@ -91,14 +92,15 @@ CLAIMED = {
             "in-memory consumer's topic filter",
             "Proof that a registration is stored under its name and served by its queue, that include_router yields the "
             "union with the later registration winning, and that a foreign, unexpired head message is rotated to the back "
-            "unchanged and never delivered or dead-lettered. 'No stale topic' fails on re-registration (F11).",
+            "unchanged and never delivered or dead-lettered. 'No stale topic' holds for actor() and include_router() after fix F11 "
+            "(Router._forget_topic under contract: the name leaves its old queue, a queue without topics is dropped).",
             "Other workers / processes are outside the model."),
     "C12": ("deductive verification of the four is_overdue, the in-memory NORMAL/DEAD consumption and the Redis consumer's "
             "delivery decision",
             "Proof that an expired head is dead-lettered and not delivered, a live one is never dead-lettered, dead letters "
             "are handed out oldest first, and (after fix F12) the Redis consumer nacks exactly the overdue NORMAL messages and "
             "returns everything else it took.",
-            "Redis fetch path by placeholder contract until c01_redis; RabbitMQ dead-letter routing is server side."),
+            "RabbitMQ dead-letter routing is server side."),
     "C14": ("deductive verification of in-memory consume (yield invariant: a taken message is held before any await), "
             "finish, ack",
             "Proof that consume holds exactly the message it returns without disturbing other holders, with no await between "
